@@ -16,7 +16,7 @@ from ..core import sym, symeval
 from ..core.cfg import CFG
 from ..core.loader import AnalysisError, Project
 from ..core.values import Arr, Bag, Blocks, DiagMat, DictV, ObjV, Sc, Seq
-from .distances import BN, B, Dd, Run, block_roles, check_filter, check_tiling, nf_check, unmodelled_in
+from .distances import BN, B, Dd, Run, block_roles, check_filter, check_graph, check_tiling, nf_check, unmodelled_in
 
 
 def cross_spec(a, b):
@@ -84,7 +84,7 @@ def _while_of(fi, view=None) -> ast.While:
     return ws[0]
 
 
-def check_thresh_perfect(rep, run: Run, D: Blocks):
+def check_thresh_perfect(rep, run: Run, D: Blocks, graph_status=None):
     fi = run.fi
     elems = D.elem_choice()
     found_edge = found_perfect = 0
@@ -162,7 +162,10 @@ def check_thresh_perfect(rep, run: Run, D: Blocks):
                                 f"feasibility test is `len(matching) {o} {sym.show(y)}` instead of `== 2·(M+N)`: "
                                 f"non-perfect matchings are accepted (or perfect ones rejected)")
                 break
-    if not found_edge:
+    if not found_edge and graph_status == "ok":
+        rep.discharged("BN-THRESH", fi, fi.node, "edge tests are not comparisons of matrix entries read in place; BN-GRAPH established "
+                                                 "that the graph is the matrix thresholded inclusively at the probed value")
+    elif not found_edge:
         rep.unmodelled("BN-THRESH", fi, fi.node, "no comparison of a cost-matrix entry with a candidate was found")
     if not found_perfect:
         rep.unmodelled("BN-PERFECT", fi, fi.node, "no test of the matching size was found")
@@ -563,7 +566,8 @@ def run(project: Project, rep, tier: str):
     check_cost(rep, run, D)
     check_tiling(rep, "BN-TILE", run, D, fi)
     check_filter(rep, "BN-FILTER", project, BN)
-    check_thresh_perfect(rep, run, D)
+    graph_status = check_graph(rep, "BN-GRAPH", run, D)
+    check_thresh_perfect(rep, run, D, graph_status)
     check_bisect(rep, run, D)
     check_order(rep, run)
     check_empty(rep, project, BN)
@@ -571,6 +575,7 @@ def run(project: Project, rep, tier: str):
         rep.refuted("BN-TILE", fi, ev["node"], f"shape mismatch for some sizes: {ev['message']}")
     rep.floor("BN-COST", 5)
     rep.floor("BN-TILE", 7)
+    rep.floor("BN-GRAPH", 1)
     rep.floor("BN-FILTER", 2)
     rep.floor("BN-THRESH", 2)
     rep.floor("BN-PERFECT", 1)
